@@ -204,6 +204,7 @@ pub fn profile_for(id: &str) -> Profile {
                 w.resize = 5;
             });
             p.max_ops = 30;
+            p.tail = 20;
         }
         "C16" => {
             p.w = weights(|w| {
@@ -326,9 +327,16 @@ fn c02_decode() -> DecodeFn {
                 let at = s.below(b.len() as u32 + 1) as usize;
                 b.splice(at..at, extra);
             }
+            let mut feeds = Vec::new();
             for ch in gen::chunking(s, &b) {
-                ops.push(Op::FeedBytes(ch));
+                feeds.push(Op::FeedBytes(ch));
             }
+            if s.chance(56) {
+                // mode selections and empty feeds between the chunks (the whole-feed side keeps
+                // the selections at the same byte offsets and drops the empty feeds)
+                gen::switch_bursts(s, &mut feeds);
+            }
+            ops.extend(feeds);
         }
         Case { cols, lines, ops }
     })
@@ -368,6 +376,9 @@ fn c11_decode() -> DecodeFn {
             for ch in gen::chunking(s, &b) {
                 ops.push(Op::FeedBytes(ch));
             }
+        }
+        if s.chance(110) {
+            gen::switch_bursts(s, &mut ops);
         }
         ops.push(Op::FeedBytes(b"x".to_vec()));
         Case { cols: 1, lines: 1, ops }
